@@ -139,6 +139,9 @@ func c05Operand(b *BigInt) []*Term {
 	}
 	limbs, exact := c05Image(b.t)
 	if !exact {
+		if iv := ivOf(b.t); iv != nil && iv.lo != nil && iv.hi != nil && iv.lo.BitLen() < 64*c05K-1 && iv.hi.BitLen() < 64*c05K-1 {
+			return limbs // the interval analysis already bounds the term (e.g. a converted fixnum)
+		}
 		lim := new(big.Int).Lsh(big.NewInt(1), 64*c05K-1)
 		rng := mkAnd(mkICmp(OILe, mkInt(new(big.Int).Neg(lim)), b.t), mkICmp(OILt, b.t, mkInt(lim)))
 		if !inBranch(rng) {
